@@ -32,6 +32,9 @@ type Options struct {
 	DeprecatedInputs bool
 	// ExecDirectives: directives may also be declared for QUERY / MUTATION / SUBSCRIPTION / FIELD
 	ExecDirectives bool
+	// NoInputDirectives: never apply custom directives to arguments, input fields or types (the
+	// reference executor of the execution checks models directives applied to field definitions)
+	NoInputDirectives bool
 	// Cycles: add a mutual cycle of non-null object fields between two object types
 	Cycles bool
 }
@@ -40,6 +43,9 @@ type Schema struct {
 	Files map[string]string
 	// Features for classification
 	Features map[string]bool
+	// ObjectFields: field names of every non-root object type, in declaration order
+	ObjectFields map[string][]string
+	ObjectNames  []string
 }
 
 // SDL returns all files concatenated (in name order).
@@ -305,6 +311,9 @@ func (g *gen) applyDir(loc string) string {
 	if g.opt.NoDirectives {
 		return ""
 	}
+	if g.opt.NoInputDirectives && (loc == "ARGUMENT_DEFINITION" || loc == "INPUT_FIELD_DEFINITION") {
+		return ""
+	}
 	var out string
 	for _, d := range g.dirs {
 		ok := false
@@ -413,6 +422,12 @@ func Generate(t *rapid.T, opt Options) *Schema {
 			locs := []string{"FIELD_DEFINITION", "ARGUMENT_DEFINITION", "INPUT_FIELD_DEFINITION", "OBJECT", "ENUM_VALUE", "INTERFACE", "UNION", "ENUM", "INPUT_OBJECT"}
 			if opt.ExecDirectives {
 				locs = append(locs, "QUERY", "MUTATION", "SUBSCRIPTION", "FIELD")
+			}
+			if opt.NoInputDirectives {
+				// type-level applications also reach fields (gqlgen runs the directives of a field's
+				// return type, and of its parent when the definition lists INPUT_OBJECT, around the
+				// field); the execution checks keep to directives applied to the field itself
+				locs = []string{"FIELD_DEFINITION", "ARGUMENT_DEFINITION", "INPUT_FIELD_DEFINITION", "ENUM_VALUE"}
 			}
 			k := rapid.IntRange(1, 4).Draw(t, "nlocs")
 			perm := rapid.Permutation(locs).Draw(t, "locs")
@@ -700,7 +715,13 @@ func Generate(t *rapid.T, opt Options) *Schema {
 			}
 		}
 	}
-	out := &Schema{Files: map[string]string{}, Features: g.feat}
+	out := &Schema{Files: map[string]string{}, Features: g.feat, ObjectFields: map[string][]string{}}
+	for _, o := range g.objects {
+		out.ObjectNames = append(out.ObjectNames, o.name)
+		for _, f := range o.fields {
+			out.ObjectFields[o.name] = append(out.ObjectFields[o.name], f.name)
+		}
+	}
 	for i := range bufs {
 		if bufs[i].Len() > 0 || i == 0 {
 			out.Files[fmt.Sprintf("schema%d.graphqls", i)] = bufs[i].String()
